@@ -43,16 +43,17 @@ const (
 	cnCtorReenter         // AssertConstructor(script constructor calling next); panic(err)
 	cnRunProgram          // nested rt.RunString("next()"); panic(err)
 	cnForOfStep           // rt.ForOf over a SCRIPT iterable handed in by the script shim above; the Go step callback (or the iterable's next()) calls the next frame
+	cnFuncGoError         // func(FunctionCall) Value; on error from the nested Callable: panic(rt.NewGoError(err)) - the idiomatic re-raise of a native without error result
 	nChainKinds
 )
 
 var chKindCodes = [...]string{"Jp", "Jr", "Jf", "Jb", "Js", "Jw", "Jg", "Jx", "Jn", "Jj", "Je", "Jk", "Ji", "Ja",
-	"Nf", "Nr", "Nw", "Np", "Nc", "Ne", "Nx", "Ng", "No", "Nt", "Nd", "Ns", "Nk", "Nn", "Nq"}
+	"Nf", "Nr", "Nw", "Np", "Nc", "Ne", "Nx", "Ng", "No", "Nt", "Nd", "Ns", "Nk", "Nn", "Nq", "Nz"}
 
 var chKindNames = [...]string{"J-plain", "J-catch-rethrow", "J-finally", "J-catch-rethrow+finally", "J-catch-swallow", "J-catch-wrap",
 	"J-getter", "J-proxy-trap", "J-generator", "J-promise", "J-eval", "J-class-ctor", "J-host-iterator", "J-iterate-builtin",
 	"N-FunctionCall", "N-reflect(error)", "N-reflect-wrapped(%w)", "N-reflect-noerr(panic)", "N-ConstructorCall", "N-ExportTo(error)",
-	"N-ExportTo(panic)", "N-Try+Get", "N-Try+ForOf", "N-ProxyTrapConfig", "N-DynamicObject", "N-swallow", "N-AssertConstructor", "N-RunProgram", "N-ForOf-step"}
+	"N-ExportTo(panic)", "N-Try+Get", "N-Try+ForOf", "N-ProxyTrapConfig", "N-DynamicObject", "N-swallow", "N-AssertConstructor", "N-RunProgram", "N-ForOf-step", "N-FunctionCall(NewGoError)"}
 
 // the draw table: index 0 is the simplest frame; catch/finally and wrapping frames get extra weight
 var chKindTable = [...]int{cjPlain, cjRethrow, cjFinally, cjBoth, cjSwallow, cjWrap, cjGetter, cjProxy, cjGen, cjJob, cjEval, cjClass,
@@ -62,7 +63,8 @@ var chKindTable = [...]int{cjPlain, cjRethrow, cjFinally, cjBoth, cjSwallow, cjW
 	cnReflectNoErr, cnExportPanic, cnDynamic, cnProxyCfg, cnCtor, cjJob,
 	cjHostIter, cjHostIter, cjHostIter, cjHostIter, cjHostIter, cjHostIter,
 	cjIterBuiltin, cjIterBuiltin, cjIterBuiltin, cjIterBuiltin, cjIterBuiltin, cjIterBuiltin, cjIterBuiltin,
-	cnForOfStep, cnForOfStep, cnForOfStep, cnForOfStep, cnForOfStep, cnForOfStep, cnForOfStep, cnForOfStep}
+	cnForOfStep, cnForOfStep, cnForOfStep, cnForOfStep, cnForOfStep, cnForOfStep, cnForOfStep, cnForOfStep,
+	cnFuncGoError, cnFuncGoError, cnFuncGoError, cnFuncGoError, cnFuncGoError, cnFuncGoError}
 
 func chIsNative(k int) bool { return k >= cnFunc }
 
@@ -239,7 +241,10 @@ const (
 	cpJsCustomError
 	cpJsFrozen
 	cpJsProxy
-	cpJsEarlierGoError
+	cpJsEarlierGoError // a GoError made by the host (rt.NewGoError) while the runtime was idle, stored in a global
+	cpJsIdleTypeError  // rt.NewTypeError(...) made by the host while idle
+	cpJsIdleError      // rt.New(Error) made by the host while idle
+	cpJsJobGoError     // the GoError goja made for a reflect-wrapped native that failed as a promise reaction job of an earlier call, saved by script
 	// native panic(Value)
 	cpGoNumber
 	cpGoString
@@ -276,19 +281,23 @@ const (
 
 var chPayloadNames = [...]string{"none",
 	"js-number", "js-string", "js-boolean", "js-null", "js-undefined", "js-symbol", "js-bigint", "js-object", "js-array", "js-function",
-	"js-error", "js-typeerror", "js-custom-error", "js-frozen", "js-proxy", "js-earlier-goerror",
+	"js-error", "js-typeerror", "js-custom-error", "js-frozen", "js-proxy", "js-earlier-goerror", "js-idle-typeerror", "js-idle-error", "js-job-goerror",
 	"go-number", "go-string", "go-boolean", "go-null", "go-undefined", "go-symbol", "go-bigint", "go-object", "go-array", "go-typeerror",
 	"go-goerror", "go-exception", "go-exception-prim",
 	"err-sentinel", "err-wrapped", "err-joined", "err-custom-type", "err-wraps-exception", "err-exception",
 	"foreign-string", "foreign-struct", "foreign-error", "foreign-nil-map-write", "foreign-index-out-of-range",
 	"intr-native", "intr-tick", "depth-limit"}
 
-func chPayloadJS(p int) bool        { return p >= cpJsNumber && p <= cpJsEarlierGoError }
-func chPayloadGoValue(p int) bool   { return p >= cpGoNumber && p <= cpGoExceptionPrim }
-func chPayloadGoErr(p int) bool     { return p >= cpErrSentinel && p <= cpErrException }
-func chPayloadForeign(p int) bool   { return p >= cpForeignString && p <= cpForeignIndex }
-func chPayloadUncatch(p int) bool   { return p >= cpIntrNative }
-func chPayloadCatchable(p int) bool { return p >= cpJsNumber && p <= cpErrException }
+func chPayloadJS(p int) bool { return p >= cpJsNumber && p <= cpJsJobGoError }
+
+// chPayloadPreCreated: a script throw of an Error object that was made while the VM call stack was empty. Its creation
+// stack is empty, so (like for any thrown value without a usable creation stack) the stack is that of the throw site.
+func chPayloadPreCreated(p int) bool { return p >= cpJsEarlierGoError && p <= cpJsJobGoError }
+func chPayloadGoValue(p int) bool    { return p >= cpGoNumber && p <= cpGoExceptionPrim }
+func chPayloadGoErr(p int) bool      { return p >= cpErrSentinel && p <= cpErrException }
+func chPayloadForeign(p int) bool    { return p >= cpForeignString && p <= cpForeignIndex }
+func chPayloadUncatch(p int) bool    { return p >= cpIntrNative }
+func chPayloadCatchable(p int) bool  { return p >= cpJsNumber && p <= cpErrException }
 
 // raiser flavours (how the innermost raising frame is implemented)
 const (
@@ -314,7 +323,9 @@ type chPay struct {
 	hasGo              bool
 	goErr              error // that Go error (filled in by the native frame that makes it, before anybody can see it)
 	isA, isB, asCustom bool
-	spine              []*chPay // payloads of the *Exceptions in the Unwrap chain of goErr, outermost first
+	spine              []*chPay   // payloads of the *Exceptions in the Unwrap chain of goErr, outermost first
+	goErrIs            *chPay     // goErr IS the *Exception carrying this payload (a native wrapped the nested call's error with NewGoError)
+	mustBe             goja.Value // the object, when a host function made it (compared at first sighting, after the structural check)
 	// pkWrapJS
 	wrapK  int
 	cause  *chPay
@@ -356,6 +367,7 @@ type chModel struct {
 	iterNotClosedAbrupt, nextThrew                                                                                  bool
 	builtinClosedOnThrow, builtinNotClosedAbrupt                                                                    bool
 	forOfClosedOnThrow, forOfClosedOnStop, forOfPassedForeign, forOfNextThrew                                       bool
+	rewrapped, rewrappedGoErr                                                                                       bool
 }
 
 func (m *chModel) ev(seg int, f string, a ...interface{}) {
@@ -388,7 +400,7 @@ func chScriptActive(frames []chFrame, entry, k int) bool {
 			return f.sel%nJobSel != jobThenDirect
 		}
 		switch f.kind {
-		case cnFunc, cnReflect, cnReflectWrap, cnReflectNoErr, cnExportErr, cnExportPanic, cnSwallow:
+		case cnFunc, cnFuncGoError, cnReflect, cnReflectWrap, cnReflectNoErr, cnExportErr, cnExportPanic, cnSwallow:
 		default:
 			return true
 		}
@@ -534,7 +546,30 @@ func chPredict(frames []chFrame, entry int, root chState, iv []chIterVals) *chMo
 				s = chState{kind: csThrow, p: q, someTop: chScriptActive(frames, entry, k)}
 			}
 			// csUncatch: stays uncatchable through the %w wrapper; csForeign: flies through
+		case cnFuncGoError:
+			if catchable {
+				// the native wraps the *Exception it got from its nested Callable in a GoError and panics with that object: in
+				// script a catchable GoError whose 'value' is that *Exception; errors.Is/As/Unwrap on what the host finally
+				// gets must walk through it to the inner exception and to whatever Go error that one carries
+				q := &chPay{kind: pkGoError, class: "[Error]", hasGo: true, isA: s.p.isA, isB: s.p.isB, asCustom: s.p.asCustom,
+					spine: append([]*chPay{s.p}, s.p.spine...), goErrIs: s.p, nwraps: s.p.nwraps + 1}
+				m.rewrapped = true
+				if q.nwraps >= 2 {
+					m.wrappedTwice = true
+				}
+				if s.p.hasGo {
+					m.rewrappedGoErr = true
+				}
+				m.made[k] = q
+				s = chState{kind: csThrow, p: q, someTop: chScriptActive(frames, entry, k)}
+			}
 		case cnExportErr:
+			if catchable && s.p.hasGo && s.p.goErrIs != nil {
+				// the bare Go error the gateway hands over is itself an *Exception: returned reflect-style it is
+				// (documented) thrown as is, i.e. the inner exception is back
+				s = chState{kind: csThrow, p: s.p.goErrIs}
+				break
+			}
 			if catchable && s.p.hasGo {
 				// documented: "instances of GoError are unwrapped, i.e. their 'value' is returned instead": the native frame
 				// gets the bare Go error and returns it, goja wraps it in a fresh GoError
